@@ -210,6 +210,10 @@ func ruleRingModulus(c *Ctx, r *Report, prefix string, side string) {
 				if !seenTop[ws.top] {
 					seenTop[ws.top] = true
 					sites = append(sites, ws)
+				} else if g != fn {
+					// a wrap consolidated in a new helper: judged once, but it counts for every function that
+					// wraps through it (the floor below is a vacuity guard on recognised uses)
+					total++
 				}
 			}
 		}
